@@ -15,7 +15,7 @@ EXPLANATION = ("T1 path-sensitive extraction of LdapResultExt::from: on every su
 TRUSTED = ['String::from_utf8 / Vec move semantics', 'lber parse (C07 reader clauses)']
 UNDECIDED = ['byte-level equality of arbitrary strings (std semantics)', 'BER length-form independence (C07 reader clause)']
 ASSUMPTIONS = []
-SHARED = [('C01', ('R3.controls', 'R3.protocol-op'), 'T6.driver-forwards-the-message'), ('C16', ('A2.no-paging-control', 'A2.removal-index'), 'T5.paged-result-controls')]      # the one place a response control list is edited before the caller sees it: exactly the paging control may go
+SHARED = [('C01', ('R3.controls', 'R3.protocol-op'), 'T6.driver-forwards-the-message'), ('C16', ('A2.no-paging-control', 'A2.last-page-strips-control'), 'T5.paged-result-controls')]      # the one place a response control list is edited before the caller sees it: exactly the paging control may go
 
 RFC4511_RESULT_TAGS = {3: 'refs', 7: 'sasl_creds', 10: 'exop_name', 11: 'exop_val'}
 RFC_CONTROL_OIDS = {
